@@ -1308,3 +1308,105 @@ Section OneShot.
     - exists t. unfold sstep. rewrite Hc. cbn [negb]. rewrite (Hnone eq_refl t), Hf. discriminate.
   Qed.
 End OneShot.
+
+(** * Components used directly *)
+
+Lemma count_k_nil k : count_k k [] = 0. Proof. reflexivity. Qed.
+
+(** Span processor driven directly. *)
+Definition DInv (st : pst) (shut : bool) : Prop := shut = p_once st /\ (p_once st = true -> p_alive st = false).
+
+Lemma dstep_sim k st shut o : DInv st shut ->
+  exists shut', dsstep (has_x k) shut o (snd (dstep k st o)) = Some shut' /\ DInv (fst (dstep k st o)) shut'.
+Proof.
+  intros [Hs Ha]. subst shut. destruct st as [once alive q]. cbn in Ha.
+  destruct once.
+  - rewrite (Ha eq_refl).
+    destruct o; destruct k as [|x|x]; try destruct x; cbn; (eexists; split; [reflexivity|]; split; cbn; auto).
+  - destruct o; destruct k as [|x|x]; try destruct x; destruct alive; destruct q; cbn;
+      (eexists; split; [reflexivity|]; split; cbn; auto; discriminate).
+Qed.
+
+Theorem dspec_ok_model k : forall ops st shut, DInv st shut -> dspec_run (has_x k) shut (drun k st ops) = true.
+Proof.
+  induction ops as [|o r IH]; intros st shut HI; [reflexivity|].
+  cbn [drun]. destruct (dstep_sim k st shut o HI) as (shut' & H1 & H2).
+  destruct (dstep k st o) as [st' ob]. cbn [fst snd] in *. cbn [dspec_run]. rewrite H1. now apply IH.
+Qed.
+
+(** Metric reader used directly. *)
+Definition RInv (r : rk) (s : rstate) (sp : rspec) : Prop :=
+  rs_shut sp = r_shut s /\ rs_once1 sp = r_once1 s /\ rs_once2 sp = r_once2 s /\
+  rs_x sp = (if r_shut s then (if periodic_std r then 1 else 0) else 0) /\
+  (r_once1 s = true -> r_shut s = true) /\ (r_once2 s = true -> r_shut s = true).
+
+Lemma rstep_sim r reg s sp o : RInv r s sp ->
+  exists sp', rsstep r reg sp o (snd (rstep r reg s o)) = Some sp' /\ RInv r (fst (rstep r reg s o)) sp'.
+Proof.
+  intros (H1 & H2 & H3 & H4 & H5 & H6). destruct sp as [sh x o1 o2]. destruct s as [rs q1 q2].
+  cbn in *. subst sh o1 o2 x.
+  assert (Hreg : reg = 0 \/ reg = 1 \/ reg = 2 \/ 3 <= reg) by lia.
+  destruct rs.
+  - (* the reader is shut down *)
+    destruct o as [| | |b|b|]; destruct r as [|[]]; try destruct b;
+      destruct Hreg as [->|[->|[->|Hge]]];
+      try (destruct reg as [|[|[|reg]]]; [lia|lia|lia|]);
+      destruct q1; destruct q2; cbn;
+      try (eexists; split; [reflexivity|]; unfold RInv; cbn; repeat split; auto; fail).
+  - assert (q1 = false) by (destruct q1; [specialize (H5 eq_refl); discriminate | reflexivity]).
+    assert (q2 = false) by (destruct q2; [specialize (H6 eq_refl); discriminate | reflexivity]).
+    subst q1 q2.
+    destruct o as [| | |b|b|]; destruct r as [|[]]; try destruct b;
+      destruct Hreg as [->|[->|[->|Hge]]];
+      try (destruct reg as [|[|[|reg]]]; [lia|lia|lia|]);
+      cbn;
+      try (eexists; split; [reflexivity|]; unfold RInv; cbn; repeat split; auto; discriminate).
+Qed.
+
+Theorem rspec_ok_model r reg : forall ops s sp, RInv r s sp -> rspec_run r reg sp (rrun r reg s ops) = true.
+Proof.
+  induction ops as [|o t IH]; intros s sp HI; [reflexivity|].
+  cbn [rrun]. destruct (rstep_sim r reg s sp o HI) as (sp' & H1 & H2).
+  destruct (rstep r reg s o) as [s' ob]. cbn [fst snd] in *. cbn [rspec_run]. rewrite H1. now apply IH.
+Qed.
+
+(** Failing processors. *)
+Lemma f_flush_spec fails regs :
+  f_flush fails regs = (to_all KFlush (upto_fail fails regs), if existsb fails regs then EOther else ENil).
+Proof.
+  induction regs as [|p r IH]; [reflexivity|]. cbn. destruct (fails p); [reflexivity|].
+  rewrite IH. reflexivity.
+Qed.
+
+Lemma f_shutdown_spec fails regs : f_shutdown fails regs = (to_all KShutdown regs, existsb fails regs).
+Proof. induction regs as [|p r IH]; [reflexivity|]. cbn. rewrite IH. reflexivity. Qed.
+
+Lemma map_pair_fst (regs : list nat) : map fst (map (fun q => (q, false)) regs) = regs.
+Proof. induction regs; cbn; congruence. Qed.
+
+Lemma fstep_sim fails s o :
+  fsstep fails s o (snd (fstep fails s o)) = Some (fst (fstep fails s o)).
+Proof.
+  destruct s as [regs shut]. destruct o as [p|p| |]; cbn [fstep fsstep].
+  - cbn. reflexivity.
+  - destruct shut; [cbn; reflexivity|]. cbn [orb].
+    rewrite last_index_spec, map_pair_fst.
+    destruct (last_pos p regs) as [j|] eqn:El.
+    + destruct (last_pos_splice p regs j El) as [Hsp _].
+      assert (Hm : mem p regs = true).
+      { destruct (mem p regs) eqn:Hm; [reflexivity|]. apply last_pos_none in Hm. congruence. }
+      rewrite Hm. cbn [negb fst snd fobs o_calls o_err]. rewrite calls_eqb_refl. rewrite Hsp. reflexivity.
+    + apply last_pos_none in El. rewrite El. cbn. reflexivity.
+  - rewrite f_flush_spec. cbn [fst snd fobs o_calls o_err]. rewrite calls_eqb_refl.
+    destruct (existsb fails regs); reflexivity.
+  - destruct shut; [cbn; reflexivity|]. rewrite f_shutdown_spec.
+    cbn [fst snd fobs o_calls o_err]. rewrite calls_eqb_refl.
+    destruct (existsb fails regs); reflexivity.
+Qed.
+
+Theorem fspec_ok_model fails : forall ops s, fspec_run fails s (frun fails s ops) = true.
+Proof.
+  induction ops as [|o r IH]; intros s; [reflexivity|].
+  cbn [frun]. pose proof (fstep_sim fails s o) as H.
+  destruct (fstep fails s o) as [s' ob]. cbn [fst snd] in H. cbn [fspec_run]. rewrite H. apply IH.
+Qed.
